@@ -499,6 +499,9 @@ def o_C09(ctx):
 # ------------------------------------------------------------------ C10
 def o_C10(ctx):
     v = []
+    for s_, c_, t_ in parser_cases(ctx):
+        if first(t_, "x_cbhash") == "0":
+            v.append(([c_.id], "%s: the block hash (or its preimage) obtained from the header INSIDE the visit_block_header callback is not the double SHA-256 of the 80 header bytes" % c_.entry))
     for s, c, t in parser_cases(ctx):
         if res_of(t) != ("ok",) or c.brk >= 0 or first(t, "x_accpanic") == "1":
             continue
